@@ -321,7 +321,7 @@ Qed.
 Lemma Good_reject1 x q t st src :
   wf x -> status_ok (CCb q st src) ->
   GoodD (q :: t) t x [CCb q st src]
-        (mkCs (cs x) (co x) (nreq x) (ccbn x) (cchain x) (cpfix x) (pred (creg x)) (cwr x)).
+        (mkCs (cs x) (co x) (nreq x) (ccbn x) (cchain x) (cpfix x) (pred (creg x)) (cax x)).
 Proof.
   intros W S. constructor.
   - exact W.
@@ -339,7 +339,7 @@ Proof.
 Qed.
 
 Lemma Good_event x ev :
-  match ev with CClosed | CReg _ | CUsable _ => True | _ => False end -> wf x -> Good x [ev] x.
+  match ev with CClosed | CReg _ | CUsable _ | CWcb | CScb => True | _ => False end -> wf x -> Good x [ev] x.
 Proof.
   intros E W. destruct ev; try contradiction;
     (constructor; [exact W|lia|cbn; constructor|cbn; constructor|intros r; cbn; reflexivity|reflexivity|
@@ -475,10 +475,14 @@ Qed.
 Lemma aux_op_good x o x' e : wf x -> aux_op x o = (x', e) -> Good x e x'.
 Proof.
   intros W H. unfold aux_op in H.
-  destruct (c_closing (cs x) || negb (c_fd (cs x)) || pending (cs x)); [inversion H; subst; apply Good_refl, W|].
-  destruct o; try (inversion H; subst; apply Good_refl, W);
-    try (destruct (wr_is (cwr x)); inversion H; subst; [apply Good_same; cbn; auto|apply Good_refl, W]).
-  inversion H; subst. apply Good_same; cbn; auto.
+  destruct (c_closing (cs x) || negb (c_fd (cs x))); [inversion H; subst; apply Good_refl, W|].
+  destruct o; try (inversion H; subst; apply Good_refl, W).
+  - destruct (negb (wr_is (a_wr (cax x))) || negb (pending (cs x) || a_cn (cax x))); [inversion H; subst; apply Good_refl, W|].
+    destruct (pending (cs x)); [inversion H; subst; apply Good_same; cbn; auto|].
+    destruct (Nat.eqb (a_wq (cax x)) 0); inversion H; subst; apply Good_same; cbn; auto.
+  - destruct (negb (wr_is (a_wr (cax x))) || a_sh (cax x)); [inversion H; subst; apply Good_refl, W|].
+    inversion H; subst. destruct (negb (pending (cs x)) && Nat.eqb (a_wq (cax x)) 0); apply Good_same; cbn; auto.
+  - destruct (pending (cs x)); inversion H; subst; [apply Good_refl, W|apply Good_same; cbn; auto].
 Qed.
 
 Lemma cexec_simple_good x o x' e : wf x -> cexec_simple x o = (x', e) -> Good x e x'.
@@ -509,7 +513,7 @@ Qed.
 Lemma run_cb_good x beh x' e : wf x -> run_cb x beh = (x', e) -> Good x e x'.
 Proof.
   intros W H. unfold run_cb in H.
-  assert (W' : wf (mkCs (cs x) (co x) (nreq x) (S (ccbn x)) (cchain x) (cpfix x) (creg x) (cwr x))) by exact W.
+  assert (W' : wf (mkCs (cs x) (co x) (nreq x) (S (ccbn x)) (cchain x) (cpfix x) (creg x) (cax x))) by exact W.
   pose proof (cexec_cb_good _ _ _ _ W' H) as G.
   replace e with ([] ++ e) by reflexivity. eapply Good_trans; [|exact G].
   apply Good_same; cbn; auto.
@@ -530,49 +534,104 @@ Proof.
     inversion H; subst. exact G.
 Qed.
 
+Lemma run_cb_w_good x beh x' e : wf x -> run_cb_w x beh = (x', e) -> Good x e x'.
+Proof.
+  intros W H. unfold run_cb_w in H.
+  assert (W' : wf (mkCs (cs x) (co x) (nreq x) (S (ccbn x)) (cchain x) (cpfix x) (creg x) (cax x))) by exact W.
+  pose proof (cexec_cb_good _ _ _ _ W' H) as G.
+  replace e with ([] ++ e) by reflexivity. eapply Good_trans; [|exact G].
+  apply Good_same; cbn; auto.
+Qed.
+
+Lemma write_cbs_good beh n : forall x x' e, wf x -> write_cbs n x beh = (x', e) -> Good x e x'.
+Proof.
+  induction n as [|n IH]; intros x x' e W H; cbn [write_cbs] in H.
+  - inversion H; subst. apply Good_refl, W.
+  - destruct (run_cb_w x beh) as [x1 e1] eqn:E1. destruct (write_cbs n x1 beh) as [x2 e2] eqn:E2.
+    inversion H; subst. change (CWcb :: e1 ++ e2) with ([CWcb] ++ e1 ++ e2).
+    eapply Good_trans; [apply Good_event; [exact I|exact W]|].
+    pose proof (run_cb_w_good _ _ _ _ W E1) as G1.
+    eapply Good_trans; [exact G1|]. apply IH; [apply (g_wf _ _ _ _ _ G1)|exact E2].
+Qed.
+
+Lemma flush_cbs_good x beh x' e : wf x -> flush_cbs x beh = (x', e) -> Good x e x'.
+Proof.
+  intros W H. unfold flush_cbs in H.
+  replace e with ([] ++ e) by reflexivity. eapply Good_trans; [|eapply write_cbs_good; [|exact H]; exact W].
+  apply Good_same; cbn; auto.
+Qed.
+
+Lemma drain_if_idle_good x x' e : wf x -> drain_if_idle x = (x', e) -> Good x e x'.
+Proof.
+  intros W H. unfold drain_if_idle in H.
+  destruct (negb (pending (cs x)) && Nat.eqb (a_wq (cax x)) 0 && Nat.eqb (a_wc (cax x)) 0);
+    [|inversion H; subst; apply Good_refl, W].
+  inversion H; subst.
+  match goal with |- GoodD [] [] x ?ev ?y => assert (G1 : Good x [] y) by (apply Good_same; cbn; auto) end.
+  destruct (a_sh (cax x)).
+  - replace [CScb] with ([] ++ [CScb]) by reflexivity. eapply Good_trans; [exact G1|].
+    apply Good_event; [exact I|apply (g_wf _ _ _ _ _ G1)].
+  - exact G1.
+Qed.
+
+Lemma after_failed_good b x beh x' e : wf x -> after_failed_connect b x beh = (x', e) -> Good x e x'.
+Proof.
+  intros W H. unfold after_failed_connect in H. destruct (b && c_fd (cs x)); [|inversion H; subst; apply Good_refl, W].
+  destruct (flush_cbs x beh) as [x1 e1] eqn:E1. pose proof (flush_cbs_good _ _ _ _ W E1) as G1.
+  destruct (a_sh (cax x1) && c_fd (cs x1)); [|inversion H; subst; exact G1].
+  destruct (drain_if_idle x1) as [x2 e2] eqn:E2. inversion H; subst.
+  eapply Good_trans; [exact G1|]. eapply drain_if_idle_good; [apply (g_wf _ _ _ _ _ G1)|exact E2].
+Qed.
+
 Lemma stream_connect_good x beh x' e : wf x -> stream_connect x beh = (x', e) -> Good x e x'.
 Proof.
   intros W H. unfold stream_connect in H. destruct (c_req (cs x)) as [r|] eqn:R.
   2: { inversion H; subst. apply Good_refl, W. }
-  assert (Step : forall (error : Z) (src : csrc) (s1 : cstream) (o' : corc),
+  assert (Step : forall (error : Z) (src : csrc) (s1 : cstream) (o' : corc) (po : bool) (ax : aux),
      c_tcp s1 = c_tcp (cs x) -> c_req s1 = c_req (cs x) -> c_closing s1 = c_closing (cs x) ->
      c_closed s1 = c_closed (cs x) -> status_ok (CCb r error src) ->
-     (if error =? UV_EINPROGRESS then (mkCs s1 o' (nreq x) (ccbn x) (cchain x) (cpfix x) (creg x) (cwr x), [])
-      else let s2 := mkC (c_tcp s1) (c_fd s1) None (c_delayed s1) false (c_fed s1) (c_closing s1) (c_closed s1) in
-           let (x1, e1) := run_cb (mkCs s2 o' (nreq x) (ccbn x) [] (cpfix x) (pred (creg x)) (cwr x)) beh in
+     (if error =? UV_EINPROGRESS then (mkCs s1 o' (nreq x) (ccbn x) (cchain x) (cpfix x) (creg x) (cax x), [])
+      else let (x1, e1) := run_cb (mkCs (mkC (c_tcp s1) (c_fd s1) None (c_delayed s1) po (c_fed s1)
+                                             (c_closing s1) (c_closed s1))
+                                        o' (nreq x) (ccbn x) [] (cpfix x) (pred (creg x)) ax) beh in
            let (x2, e2) := reject (cchain x) UV_EALREADY SrcRejected x1 beh in
-           (x2, CCb r error src ::
-                (if error =? 0 then [CUsable (match cwr x with Some false => false | _ => true end)] else [])
-                ++ e1 ++ e2)) = (x', e) ->
+           let (x3, e3) := after_failed_connect (error <? 0) x2 beh in
+           (x3, CCb r error src ::
+                (if error =? 0 then [CUsable (match a_wr (cax x) with Some false => false | _ => true end)] else [])
+                ++ e1 ++ e2 ++ e3)) = (x', e) ->
      Good x e x').
-  { intros error src s1 o' T1 T2 T3 T4 St H'.
+  { intros error src s1 o' po ax T1 T2 T3 T4 St H'.
     destruct (error =? UV_EINPROGRESS).
     - inversion H'; subst. apply Good_same; cbn; auto; congruence.
-    - cbv zeta in H'.
-      destruct (run_cb (mkCs (mkC (c_tcp s1) (c_fd s1) None (c_delayed s1) false (c_fed s1)
-                                  (c_closing s1) (c_closed s1)) o' (nreq x) (ccbn x) [] (cpfix x) (pred (creg x)) (cwr x)) beh)
+    - destruct (run_cb (mkCs (mkC (c_tcp s1) (c_fd s1) None (c_delayed s1) po (c_fed s1)
+                                  (c_closing s1) (c_closed s1)) o' (nreq x) (ccbn x) [] (cpfix x) (pred (creg x)) ax) beh)
         as [x1 e1] eqn:Er.
       destruct (reject (cchain x) UV_EALREADY SrcRejected x1 beh) as [x2 e2] eqn:Ej.
-      inversion H'; subst.
-      match goal with |- Good x (CCb r error src :: ?fl ++ e1 ++ e2) x' =>
-        change (CCb r error src :: fl ++ e1 ++ e2) with ([CCb r error src] ++ fl ++ e1 ++ e2); set (FL := fl) end.
+      destruct (after_failed_connect (error <? 0) x2 beh) as [x3 e3] eqn:Ea.
       assert (G1 : GoodD [] (cchain x) x [CCb r error src]
-                 (mkCs (mkC (c_tcp s1) (c_fd s1) None (c_delayed s1) false (c_fed s1)
-                            (c_closing s1) (c_closed s1)) o' (nreq x) (ccbn x) [] (cpfix x) (pred (creg x)) (cwr x))).
+                 (mkCs (mkC (c_tcp s1) (c_fd s1) None (c_delayed s1) po (c_fed s1)
+                            (c_closing s1) (c_closed s1)) o' (nreq x) (ccbn x) [] (cpfix x) (pred (creg x)) ax)).
       { apply Good_cb; cbn; auto; try congruence.
         destruct W as (_ & W2 & _). rewrite T4, T3. intros Hd. apply (W2 Hd). }
-      eapply Good_trans; [exact G1|].
-      assert (GF : GoodD (cchain x) (cchain x) (mkCs (mkC (c_tcp s1) (c_fd s1) None (c_delayed s1) false (c_fed s1)
-                            (c_closing s1) (c_closed s1)) o' (nreq x) (ccbn x) [] (cpfix x) (pred (creg x)) (cwr x)) FL
-                         (mkCs (mkC (c_tcp s1) (c_fd s1) None (c_delayed s1) false (c_fed s1)
-                            (c_closing s1) (c_closed s1)) o' (nreq x) (ccbn x) [] (cpfix x) (pred (creg x)) (cwr x))).
+      set (FL := (if error =? 0 then [CUsable (match a_wr (cax x) with Some false => false | _ => true end)] else [])) in *.
+      assert (GF : GoodD (cchain x) (cchain x) (mkCs (mkC (c_tcp s1) (c_fd s1) None (c_delayed s1) po (c_fed s1)
+                            (c_closing s1) (c_closed s1)) o' (nreq x) (ccbn x) [] (cpfix x) (pred (creg x)) ax) FL
+                         (mkCs (mkC (c_tcp s1) (c_fd s1) None (c_delayed s1) po (c_fed s1)
+                            (c_closing s1) (c_closed s1)) o' (nreq x) (ccbn x) [] (cpfix x) (pred (creg x)) ax)).
       { subst FL. destruct (error =? 0).
         - apply (Good_frame (cchain x) [] []). apply Good_event; [exact I|apply (g_wf _ _ _ _ _ G1)].
         - apply (Good_frame (cchain x) [] []). apply Good_refl, (g_wf _ _ _ _ _ G1). }
-      eapply Good_trans; [exact GF|].
       pose proof (run_cb_good _ _ _ _ (g_wf _ _ _ _ _ G1) Er) as G2.
-      eapply Good_trans; [apply (Good_frame (cchain x) _ _ _ _ _ G2)|]. cbn [app].
-      eapply reject_good; [apply (g_wf _ _ _ _ _ G2)| |exact Ej]. intros q. reflexivity. }
+      assert (G3 : GoodD (cchain x) [] x1 e2 x2).
+      { eapply reject_good; [apply (g_wf _ _ _ _ _ G2)| |exact Ej]. intros q. reflexivity. }
+      pose proof (after_failed_good _ _ _ _ _ (g_wf _ _ _ _ _ G3) Ea) as G4.
+      pose proof (Good_trans _ _ _ _ _ _ _ _ G1
+                    (Good_trans _ _ _ _ _ _ _ _ GF
+                       (Good_trans _ _ _ _ _ _ _ _ (Good_frame (cchain x) _ _ _ _ _ G2)
+                          (Good_trans _ _ _ _ _ _ _ _ G3 G4)))) as G.
+      cbn [app] in G.
+      inversion H'; subst. exact G. }
+  cbv zeta in H.
   destruct (Z.eqb_spec (c_delayed (cs x)) 0) as [Ed|Ed]; cbn [negb] in H.
   - destruct (next_z (o_so (co x))) as [er so'] eqn:En. eapply Step; [..|exact H]; auto. exact I.
   - eapply Step; [..|exact H]; cbn; auto.
@@ -582,7 +641,15 @@ Lemma stream_io_good x beh x' e : wf x -> stream_io x beh = (x', e) -> Good x e 
 Proof.
   intros W H. unfold stream_io in H. destruct (c_req (cs x)) eqn:R.
   - eapply stream_connect_good; eauto.
-  - inversion H; subst. apply Good_same; cbn; auto.
+  - cbv zeta in H.
+    match type of H with (let (_, _) := flush_cbs ?y beh in _) = _ =>
+      assert (G0 : Good x [] y) by (apply Good_same; cbn; auto);
+      destruct (flush_cbs y beh) as [x1 e1] eqn:E1 end.
+    pose proof (flush_cbs_good _ _ _ _ (g_wf _ _ _ _ _ G0) E1) as G1.
+    destruct (drain_if_idle x1) as [x2 e2] eqn:E2. inversion H; subst.
+    replace (e1 ++ e2) with ([] ++ e1 ++ e2) by reflexivity.
+    eapply Good_trans; [exact G0|]. eapply Good_trans; [exact G1|].
+    eapply drain_if_idle_good; [apply (g_wf _ _ _ _ _ G1)|exact E2].
 Qed.
 
 Lemma unfeed_good x : wf x -> Good x [] (unfeed x).
@@ -614,31 +681,49 @@ Proof. intros W. apply Good_event; [exact I|exact W]. Qed.
 
 Lemma destroy_good x beh x' e : wf x -> destroy x beh = (x', e) -> Good x e x'.
 Proof.
-  intros W H. unfold destroy in H. destruct (c_req (cs x)) as [r|] eqn:R.
-  - match type of H with (let (_, _) := run_cb ?y beh in _) = _ => destruct (run_cb y beh) as [x1 e1] eqn:Er end.
-    destruct (reject (cchain x) UV_ECANCELED SrcCancel x1 beh) as [x2 e2] eqn:Ej.
-    match type of Er with run_cb ?y beh = _ =>
-      assert (G1 : GoodD [] (cchain x) x [CCb r UV_ECANCELED SrcCancel] y) by (apply Good_cb; cbn; auto) end.
-    pose proof (run_cb_good _ _ _ _ (g_wf _ _ _ _ _ G1) Er) as G2.
-    assert (G3 : GoodD (cchain x) [] x1 e2 x2).
-    { eapply reject_good; [apply (g_wf _ _ _ _ _ G2)| |exact Ej]. intros q. reflexivity. }
-    pose proof (Good_event_closed x2 (g_wf _ _ _ _ _ G3)) as G4.
-    pose proof (Good_trans _ _ _ _ _ _ _ _ G1
-                  (Good_trans _ _ _ _ _ _ _ _ (Good_frame (cchain x) _ _ _ _ _ G2)
-                     (Good_trans _ _ _ _ _ _ _ _ G3 G4))) as G.
-    inversion H; subst. exact G.
-  - inversion H; subst. replace [CClosed] with ([] ++ [CClosed]) by reflexivity.
-    assert (G1 : Good x [] (upd_s x (mkC (c_tcp (cs x)) (c_fd (cs x)) None (c_delayed (cs x)) (c_pollout (cs x))
-                                        (c_fed (cs x)) true true))).
-    { destruct W as (W1 & W2 & W3 & W4).
-      assert (W' : wf (upd_s x (mkC (c_tcp (cs x)) (c_fd (cs x)) None (c_delayed (cs x)) (c_pollout (cs x))
-                                    (c_fed (cs x)) true true))).
+  intros W H. unfold destroy in H.
+  assert (Part : exists x2 ec,
+     match c_req (cs x) with
+     | Some r => let (x1, e1) := run_cb (mkCs (mkC (c_tcp (cs x)) (c_fd (cs x)) None (c_delayed (cs x)) (c_pollout (cs x))
+                                                  (c_fed (cs x)) true true)
+                                             (co x) (nreq x) (ccbn x) [] (cpfix x) (pred (creg x)) (cax x)) beh in
+                 let (x2, e2) := reject (cchain x) UV_ECANCELED SrcCancel x1 beh in
+                 (x2, CCb r UV_ECANCELED SrcCancel :: e1 ++ e2)
+     | None => (mkCs (mkC (c_tcp (cs x)) (c_fd (cs x)) None (c_delayed (cs x)) (c_pollout (cs x)) (c_fed (cs x)) true true)
+                     (co x) (nreq x) (ccbn x) (cchain x) (cpfix x) (creg x) (cax x), [])
+     end = (x2, ec) /\ Good x ec x2).
+  { destruct (c_req (cs x)) as [r|] eqn:R.
+    - match goal with |- context [run_cb ?y beh] => destruct (run_cb y beh) as [x1 e1] eqn:Er end.
+      destruct (reject (cchain x) UV_ECANCELED SrcCancel x1 beh) as [x2 e2] eqn:Ej.
+      exists x2, (CCb r UV_ECANCELED SrcCancel :: e1 ++ e2). split; [reflexivity|].
+      match type of Er with run_cb ?y beh = _ =>
+        assert (G1 : GoodD [] (cchain x) x [CCb r UV_ECANCELED SrcCancel] y) by (apply Good_cb; cbn; auto) end.
+      pose proof (run_cb_good _ _ _ _ (g_wf _ _ _ _ _ G1) Er) as G2.
+      assert (G3 : GoodD (cchain x) [] x1 e2 x2).
+      { eapply reject_good; [apply (g_wf _ _ _ _ _ G2)| |exact Ej]. intros q. reflexivity. }
+      exact (Good_trans _ _ _ _ _ _ _ _ G1
+               (Good_trans _ _ _ _ _ _ _ _ (Good_frame (cchain x) _ _ _ _ _ G2) G3)).
+    - eexists _, _. split; [reflexivity|].
+      destruct W as (W1 & W2 & W3 & W4).
+      match goal with |- GoodD [] [] x [] ?y => assert (W' : wf y) end.
       { unfold wf; cbn. repeat split; auto; try discriminate; try (apply W3, R). }
       constructor; auto; try (cbn; constructor); try lia.
-      - intros q. unfold pend; cbn. rewrite R. reflexivity.
-      - unfold pendn in *; cbn in *. rewrite R in *. lia.
-      - unfold pendn in *; cbn in *. rewrite R in *. lia. }
-    eapply Good_trans; [exact G1|]. apply Good_event_closed, (g_wf _ _ _ _ _ G1).
+      + intros q. unfold pend; cbn. rewrite R. reflexivity.
+      + unfold pendn in *; cbn in *. rewrite R in *. lia.
+      + unfold pendn in *; cbn in *. rewrite R in *. lia. }
+  destruct Part as (x2 & ec & Ep & G12). rewrite Ep in H.
+  destruct (flush_cbs x2 beh) as [x3 e3] eqn:E3.
+  pose proof (flush_cbs_good _ _ _ _ (g_wf _ _ _ _ _ G12) E3) as G3.
+  inversion H; subst.
+  match goal with |- GoodD [] [] x _ ?y => assert (G4 : Good x3 [] y) by (apply Good_same; cbn; auto; apply (g_wf _ _ _ _ _ G3)) end.
+  eapply Good_trans; [exact G12|]. eapply Good_trans; [exact G3|].
+  replace ((if a_sh (cax x3) then [CScb] else []) ++ [CClosed])
+    with ([] ++ (if a_sh (cax x3) then [CScb] else []) ++ [CClosed]) by reflexivity.
+  eapply Good_trans; [exact G4|].
+  destruct (a_sh (cax x3)).
+  - eapply Good_trans; [apply Good_event; [exact I|apply (g_wf _ _ _ _ _ G4)]|].
+    apply Good_event; [exact I|apply (g_wf _ _ _ _ _ G4)].
+  - apply Good_event; [exact I|apply (g_wf _ _ _ _ _ G4)].
 Qed.
 
 Lemma run_iter_good x beh x' e : wf x -> run_iter x beh = (x', e) -> Good x e x'.
@@ -735,15 +820,22 @@ Qed.
 
 Lemma destroy_closed x beh : wf x -> c_closed (cs (fst (destroy x beh))) = true.
 Proof.
-  intros W. unfold destroy. destruct (c_req (cs x)) as [r|] eqn:R; [|reflexivity].
-  match goal with |- context [run_cb ?y beh] =>
-    assert (G1 : GoodD [] (cchain x) x [CCb r UV_ECANCELED SrcCancel] y) by (apply Good_cb; cbn; auto);
-    destruct (run_cb y beh) as [x1 e1] eqn:Er end.
-  pose proof (run_cb_good _ _ _ _ (g_wf _ _ _ _ _ G1) Er) as G2.
-  destruct (reject (cchain x) UV_ECANCELED SrcCancel x1 beh) as [x2 e2] eqn:Ej.
-  assert (G3 : GoodD (cchain x) [] x1 e2 x2).
-  { exact (reject_good beh UV_ECANCELED SrcCancel (cchain x) x1 x2 e2 (g_wf _ _ _ _ _ G2) (fun q => eq_refl) Ej). }
-  cbn [fst]. apply (g_closed _ _ _ _ _ G3), (g_closed _ _ _ _ _ G2). reflexivity.
+  intros W. unfold destroy. destruct (c_req (cs x)) as [r|] eqn:R.
+  - match goal with |- context [run_cb ?y beh] =>
+      assert (G1 : GoodD [] (cchain x) x [CCb r UV_ECANCELED SrcCancel] y) by (apply Good_cb; cbn; auto);
+      destruct (run_cb y beh) as [x1 e1] eqn:Er end.
+    pose proof (run_cb_good _ _ _ _ (g_wf _ _ _ _ _ G1) Er) as G2.
+    destruct (reject (cchain x) UV_ECANCELED SrcCancel x1 beh) as [x2 e2] eqn:Ej.
+    assert (G3 : GoodD (cchain x) [] x1 e2 x2).
+    { exact (reject_good beh UV_ECANCELED SrcCancel (cchain x) x1 x2 e2 (g_wf _ _ _ _ _ G2) (fun q => eq_refl) Ej). }
+    destruct (flush_cbs x2 beh) as [x3 e3] eqn:E3.
+    pose proof (flush_cbs_good _ _ _ _ (g_wf _ _ _ _ _ G3) E3) as G4.
+    cbn [fst cs]. apply (g_closed _ _ _ _ _ G4), (g_closed _ _ _ _ _ G3), (g_closed _ _ _ _ _ G2). reflexivity.
+  - match goal with |- context [flush_cbs ?y beh] =>
+      assert (Wy : wf y) by (destruct W as (W1 & W2 & W3 & W4); unfold wf; cbn; repeat split; auto; try discriminate; try (apply W3, R));
+      destruct (flush_cbs y beh) as [x3 e3] eqn:E3 end.
+    pose proof (flush_cbs_good _ _ _ _ Wy E3) as G4.
+    cbn [fst cs]. apply (g_closed _ _ _ _ _ G4). reflexivity.
 Qed.
 
 Lemma run_iter_closes x beh :
@@ -844,6 +936,7 @@ Proof.
   unfold destroy. cbn [cs c_req upd_s]. rewrite R.
   match goal with |- context [run_cb ?y beh] => destruct (run_cb y beh) as [x1 e1] end.
   match goal with |- context [reject ?c ?s ?k ?y beh] => destruct (reject c s k y beh) as [x2 e2] end.
+  match goal with |- context [flush_cbs ?y beh] => destruct (flush_cbs y beh) as [x3 e3] end.
   cbn. eexists; reflexivity.
 Qed.
 
@@ -919,7 +1012,7 @@ Qed.
    EINPROGRESS would be swallowed by uv__stream_connect). *)
 Definition noinp (v : Z) : Prop := v <> UV_EINPROGRESS.
 Definition I5 (x : cst) : Prop :=
-  (c_req (cs x) <> None -> c_delayed (cs x) = 0 -> cwr x <> Some false) /\
+  (c_req (cs x) <> None -> c_delayed (cs x) = 0 -> a_wr (cax x) <> Some false) /\
   noinp (c_delayed (cs x)) /\ Forall noinp (o_sock (co x)).
 Definition flag_ok (e : cev) : Prop := match e with CUsable b => b = true | _ => True end.
 Definition P5 (x' : cst) (e : list cev) : Prop := I5 x' /\ Forall flag_ok e.
@@ -938,7 +1031,7 @@ Lemma P5_app x1 e1 x2 e2 : P5 x1 e1 -> P5 x2 e2 -> P5 x2 (e1 ++ e2).
 Proof. intros (_ & F1) (I & F2). split; [exact I|apply Forall_app; split; assumption]. Qed.
 
 Lemma I5_same x x' :
-  I5 x -> c_req (cs x') = c_req (cs x) -> c_delayed (cs x') = c_delayed (cs x) -> cwr x' = cwr x ->
+  I5 x -> c_req (cs x') = c_req (cs x) -> c_delayed (cs x') = c_delayed (cs x) -> a_wr (cax x') = a_wr (cax x) ->
   o_sock (co x') = o_sock (co x) -> I5 x'.
 Proof. unfold I5. intros I R D W O. rewrite R, D, W, O. exact I. Qed.
 
@@ -1045,17 +1138,20 @@ Qed.
 Lemma aux_op_I5 x o x' e : I5 x -> aux_op x o = (x', e) -> P5 x' e.
 Proof.
   intros I H. unfold aux_op in H.
-  destruct (c_closing (cs x) || negb (c_fd (cs x))); cbn [orb] in H; [inversion H; subst; apply P5_same, I|].
-  destruct (pending (cs x)) eqn:Pn; [inversion H; subst; apply P5_same, I|].
-  assert (R : c_req (cs x) = None) by (unfold pending in Pn; destruct (c_req (cs x)); [discriminate|reflexivity]).
+  destruct (c_closing (cs x) || negb (c_fd (cs x))); [inversion H; subst; apply P5_same, I|].
   destruct I as (I1 & I2 & I3).
-  assert (New : forall s w, c_req s = None -> c_delayed s = c_delayed (cs x) ->
-            I5 (mkCs s (co x) (nreq x) (ccbn x) (cchain x) (cpfix x) (creg x) w)).
-  { intros s w Rs Ds. unfold I5; cbn. rewrite Rs, Ds. repeat split; auto; try (intros C; contradiction). }
-  destruct o; try (inversion H; subst; apply P5_same; repeat split; assumption);
-    try (destruct (wr_is (cwr x)); inversion H; subst;
-         [split; [apply New; [exact R|reflexivity]|constructor]|apply P5_same; repeat split; assumption]).
-  inversion H; subst. split; [apply New; [exact R|reflexivity]|constructor].
+  assert (Keep : forall s a, c_req s = c_req (cs x) -> c_delayed s = c_delayed (cs x) ->
+            (a_wr a = a_wr (cax x) \/ a_wr a = None) ->
+            P5 (mkCs s (co x) (nreq x) (ccbn x) (cchain x) (cpfix x) (creg x) a) []).
+  { intros s a Rs Ds Wa. split; [|constructor]. unfold I5; cbn. rewrite Rs, Ds. repeat split; auto.
+    intros C D. destruct Wa as [-> | ->]; [apply I1; assumption|discriminate]. }
+  destruct o; try (inversion H; subst; apply P5_same; repeat split; assumption).
+  - destruct (negb (wr_is (a_wr (cax x))) || negb (pending (cs x) || a_cn (cax x))); [inversion H; subst; apply P5_same; repeat split; assumption|].
+    destruct (pending (cs x)); [inversion H; subst; apply Keep; auto|].
+    destruct (Nat.eqb (a_wq (cax x)) 0); inversion H; subst; apply Keep; auto.
+  - destruct (negb (wr_is (a_wr (cax x))) || a_sh (cax x)); [inversion H; subst; apply P5_same; repeat split; assumption|].
+    inversion H; subst. destruct (negb (pending (cs x)) && Nat.eqb (a_wq (cax x)) 0); apply Keep; auto.
+  - destruct (pending (cs x)); inversion H; subst; [apply P5_same; repeat split; assumption|apply Keep; auto].
 Qed.
 
 Lemma cexec_simple_I5 x o x' e : I5 x -> cexec_simple x o = (x', e) -> P5 x' e.
@@ -1110,6 +1206,42 @@ Proof.
     split; [apply P2|]. constructor; [exact Logic.I|]. apply Forall_app; split; [apply P1|apply P2].
 Qed.
 
+Lemma run_cb_w_I5 x beh x' e : I5 x -> run_cb_w x beh = (x', e) -> P5 x' e.
+Proof. intros I H. unfold run_cb_w in H. eapply cexec_cb_I5; [|exact H]. exact I. Qed.
+
+Lemma write_cbs_I5 beh n : forall x x' e, I5 x -> write_cbs n x beh = (x', e) -> P5 x' e.
+Proof.
+  induction n as [|n IH]; intros x x' e I H; cbn [write_cbs] in H.
+  - inversion H; subst. apply P5_same, I.
+  - destruct (run_cb_w x beh) as [x1 e1] eqn:E1. destruct (write_cbs n x1 beh) as [x2 e2] eqn:E2.
+    inversion H; subst. pose proof (run_cb_w_I5 _ _ _ _ I E1) as P1. pose proof (IH _ _ _ (proj1 P1) E2) as P2.
+    split; [apply P2|]. constructor; [exact Logic.I|]. apply Forall_app; split; [apply P1|apply P2].
+Qed.
+
+Lemma flush_cbs_I5 x beh x' e : I5 x -> flush_cbs x beh = (x', e) -> P5 x' e.
+Proof.
+  intros I H. unfold flush_cbs in H. eapply write_cbs_I5; [|exact H].
+  eapply I5_same; [exact I| | | |]; reflexivity.
+Qed.
+
+Lemma drain_if_idle_I5 x x' e : I5 x -> drain_if_idle x = (x', e) -> P5 x' e.
+Proof.
+  intros I H. unfold drain_if_idle in H.
+  destruct (negb (pending (cs x)) && Nat.eqb (a_wq (cax x)) 0 && Nat.eqb (a_wc (cax x)) 0);
+    [|inversion H; subst; apply P5_same, I].
+  inversion H; subst. split; [eapply I5_same; [exact I| | | |]; reflexivity|].
+  destruct (a_sh (cax x)); repeat constructor.
+Qed.
+
+Lemma after_failed_I5 b x beh x' e : I5 x -> after_failed_connect b x beh = (x', e) -> P5 x' e.
+Proof.
+  intros I H. unfold after_failed_connect in H. destruct (b && c_fd (cs x)); [|inversion H; subst; apply P5_same, I].
+  destruct (flush_cbs x beh) as [x1 e1] eqn:E1. pose proof (flush_cbs_I5 _ _ _ _ I E1) as P1.
+  destruct (a_sh (cax x1) && c_fd (cs x1)); [|inversion H; subst; exact P1].
+  destruct (drain_if_idle x1) as [x2 e2] eqn:E2. inversion H; subst.
+  apply (P5_app x1); [exact P1|]. eapply drain_if_idle_I5; [apply P1|exact E2].
+Qed.
+
 Lemma stream_connect_I5 x beh x' e : I5 x -> stream_connect x beh = (x', e) -> P5 x' e.
 Proof.
   intros I H. unfold stream_connect in H. destruct (c_req (cs x)) as [r|] eqn:R.
@@ -1117,39 +1249,51 @@ Proof.
   destruct I as (I1 & I2 & I3).
   assert (Fin : forall (error : Z) (src : csrc) s1 o',
      c_req s1 = None -> noinp (c_delayed s1) -> Forall noinp (o_sock o') ->
-     (error = 0 -> cwr x <> Some false) ->
-     (let (x1, e1) := run_cb (mkCs s1 o' (nreq x) (ccbn x) [] (cpfix x) (pred (creg x)) (cwr x)) beh in
+     (error = 0 -> a_wr (cax x) <> Some false) ->
+     forall ax, a_wr ax = a_wr (cax x) ->
+     (let (x1, e1) := run_cb (mkCs s1 o' (nreq x) (ccbn x) [] (cpfix x) (pred (creg x)) ax) beh in
       let (x2, e2) := reject (cchain x) UV_EALREADY SrcRejected x1 beh in
-      (x2, CCb r error src ::
-           (if error =? 0 then [CUsable (match cwr x with Some false => false | _ => true end)] else [])
-           ++ e1 ++ e2)) = (x', e) -> P5 x' e).
-  { intros error src s1 o' Rs Ns Fs Hw H'.
+      let (x3, e3) := after_failed_connect (error <? 0) x2 beh in
+      (x3, CCb r error src ::
+           (if error =? 0 then [CUsable (match a_wr (cax x) with Some false => false | _ => true end)] else [])
+           ++ e1 ++ e2 ++ e3)) = (x', e) -> P5 x' e).
+  { intros error src s1 o' Rs Ns Fs Hw ax Hax H'.
     match type of H' with (let (_, _) := run_cb ?y beh in _) = _ =>
       assert (Iy : I5 y) by (unfold I5; cbn; rewrite Rs; repeat split; auto; intros C; contradiction);
       destruct (run_cb y beh) as [x1 e1] eqn:E1 end.
-    destruct (reject (cchain x) UV_EALREADY SrcRejected x1 beh) as [x2 e2] eqn:E2. inversion H'; subst.
+    destruct (reject (cchain x) UV_EALREADY SrcRejected x1 beh) as [x2 e2] eqn:E2.
+    destruct (after_failed_connect (error <? 0) x2 beh) as [x3 e3] eqn:E3. inversion H'; subst.
     pose proof (run_cb_I5 _ _ _ _ Iy E1) as P1.
     pose proof (reject_I5 _ _ _ _ _ _ _ (proj1 P1) E2) as P2.
-    split; [apply P2|]. constructor; [exact Logic.I|]. apply Forall_app. split.
+    pose proof (after_failed_I5 _ _ _ _ _ (proj1 P2) E3) as P3.
+    split; [apply P3|]. constructor; [exact Logic.I|]. apply Forall_app. split.
     - destruct (Z.eqb_spec error 0) as [E0|E0]; [|constructor]. constructor; [|constructor]. cbn.
-      specialize (Hw E0). destruct (cwr x) as [[|]|]; try reflexivity. contradiction.
-    - apply Forall_app; split; [apply P1|apply P2]. }
+      specialize (Hw E0). destruct (a_wr (cax x)) as [[|]|]; try reflexivity. contradiction.
+    - apply Forall_app; split; [apply P1|]. apply Forall_app; split; [apply P2|apply P3]. }
+  cbv zeta in H.
   destruct (Z.eqb_spec (c_delayed (cs x)) 0) as [Ed|Ed]; cbn [negb] in H.
   - destruct (next_z (o_so (co x))) as [er so'].
     destruct (er =? UV_EINPROGRESS).
     + inversion H; subst. split; [|constructor]. unfold I5; cbn. rewrite R. repeat split; auto.
       intros _ _. apply I1; [rewrite R; discriminate|exact Ed].
-    + eapply Fin; [..|exact H]; cbn; auto. intros _. apply I1; [rewrite R; discriminate|exact Ed].
+    + eapply Fin; [..|exact H]; cbn; auto; try (destruct (er =? 0); reflexivity).
+      intros _. apply I1; [rewrite R; discriminate|exact Ed].
   - destruct (Z.eqb_spec (c_delayed (cs x)) UV_EINPROGRESS) as [Ei|Ei]; [contradiction|].
-    eapply Fin; [..|exact H]; cbn; auto; try (unfold noinp; discriminate); try (intros E0; contradiction).
+    eapply Fin; [..|exact H]; cbn; auto; try (unfold noinp; discriminate); try (intros E0; contradiction);
+      try (destruct (c_delayed (cs x) =? 0); reflexivity).
 Qed.
 
 Lemma stream_io_I5 x beh x' e : I5 x -> stream_io x beh = (x', e) -> P5 x' e.
 Proof.
   intros I H. unfold stream_io in H. destruct (c_req (cs x)) eqn:R.
   - eapply stream_connect_I5; eauto.
-  - inversion H; subst. split; [|constructor]. destruct I as (I1 & I2 & I3).
-    unfold I5; cbn. repeat split; auto; try (intros C; contradiction).
+  - cbv zeta in H.
+    match type of H with (let (_, _) := flush_cbs ?y beh in _) = _ =>
+      assert (I0 : I5 y) by (destruct I as (I1 & I2 & I3); unfold I5; cbn; repeat split; auto; intros C; contradiction);
+      destruct (flush_cbs y beh) as [x1 e1] eqn:E1 end.
+    pose proof (flush_cbs_I5 _ _ _ _ I0 E1) as P1.
+    destruct (drain_if_idle x1) as [x2 e2] eqn:E2. inversion H; subst.
+    apply (P5_app x1); [exact P1|]. eapply drain_if_idle_I5; [apply P1|exact E2].
 Qed.
 
 Lemma unfeed_I5 x : I5 x -> I5 (unfeed x).
@@ -1166,18 +1310,35 @@ Proof.
     apply (P5_app x1); [exact P1|]. eapply IH; [apply P1|exact E2].
 Qed.
 
+Lemma destroy_tail_I5 x2 ec beh x' e :
+  P5 x2 ec ->
+  (let (x3, e3) := flush_cbs x2 beh in
+   (mkCs (cs x3) (co x3) (nreq x3) (ccbn x3) (cchain x3) (cpfix x3) (creg x3)
+         (mkA (a_wr (cax x3)) (a_wq (cax x3)) (a_wc (cax x3)) false (a_cn (cax x3))),
+    ec ++ e3 ++ (if a_sh (cax x3) then [CScb] else []) ++ [CClosed])) = (x', e) -> P5 x' e.
+Proof.
+  intros P12 H. destruct (flush_cbs x2 beh) as [x3 e3] eqn:E3.
+  pose proof (flush_cbs_I5 _ _ _ _ (proj1 P12) E3) as P3. inversion H; subst.
+  split.
+  - eapply I5_same; [apply P3| | | |]; reflexivity.
+  - apply Forall_app; split; [apply P12|]. apply Forall_app; split; [apply P3|].
+    destruct (a_sh (cax x3)); repeat constructor.
+Qed.
+
 Lemma destroy_I5 x beh x' e : I5 x -> destroy x beh = (x', e) -> P5 x' e.
 Proof.
-  intros (I1 & I2 & I3) H. unfold destroy in H. destruct (c_req (cs x)) as [r|] eqn:R.
-  - match type of H with (let (_, _) := run_cb ?y beh in _) = _ =>
+  intros (I1 & I2 & I3) H. unfold destroy in H. cbv zeta in H.
+  destruct (c_req (cs x)) as [r|] eqn:R.
+  - match type of H with context [run_cb ?y beh] =>
       assert (Iy : I5 y) by (unfold I5; cbn; repeat split; auto; intros C; contradiction);
       destruct (run_cb y beh) as [x1 e1] eqn:E1 end.
-    destruct (reject (cchain x) UV_ECANCELED SrcCancel x1 beh) as [x2 e2] eqn:E2. inversion H; subst.
+    destruct (reject (cchain x) UV_ECANCELED SrcCancel x1 beh) as [x2 e2] eqn:E2.
     pose proof (run_cb_I5 _ _ _ _ Iy E1) as P1.
     pose proof (reject_I5 _ _ _ _ _ _ _ (proj1 P1) E2) as P2.
-    split; [apply P2|]. constructor; [exact Logic.I|].
-    apply Forall_app; split; [apply P1|]. apply Forall_app; split; [apply P2|repeat constructor].
-  - inversion H; subst. split; [|repeat constructor]. unfold I5; cbn. repeat split; auto; try (intros C; contradiction).
+    eapply destroy_tail_I5; [|exact H].
+    split; [apply P2|]. constructor; [exact Logic.I|]. apply Forall_app; split; [apply P1|apply P2].
+  - eapply destroy_tail_I5; [|exact H].
+    split; [|constructor]. unfold I5; cbn. repeat split; auto; try (intros C; contradiction).
 Qed.
 
 Lemma run_iter_I5 x beh x' e : I5 x -> run_iter x beh = (x', e) -> P5 x' e.
@@ -1243,10 +1404,12 @@ Proof.
   - destruct (c_delayed (cs x) =? UV_EINPROGRESS); [discriminate|].
     match type of H with context [run_cb ?y beh] => destruct (run_cb y beh) as [x1 e1] end.
     match type of H with context [reject ?c ?s ?k ?y beh] => destruct (reject c s k y beh) as [x2 e2] end.
+    match type of H with context [after_failed_connect ?b ?y beh] => destruct (after_failed_connect b y beh) as [x3 e3] end.
     cbn in H. inversion H.
   - destruct (next_z (o_so (co x))) as [er so'].
     destruct (er =? UV_EINPROGRESS); [discriminate|].
     match type of H with context [run_cb ?y beh] => destruct (run_cb y beh) as [x1 e1] end.
     match type of H with context [reject ?c ?s ?k ?y beh] => destruct (reject c s k y beh) as [x2 e2] end.
+    match type of H with context [after_failed_connect ?b ?y beh] => destruct (after_failed_connect b y beh) as [x3 e3] end.
     cbn in H. inversion H; subst. cbn. eexists _, _; reflexivity.
 Qed.
